@@ -43,6 +43,20 @@ func verifAttackerMessage(pfx string, m *cose.Sign1Message) *cose.Sign1Message {
 	case 2:
 		a.Payload = ndBytes(pfx + ".payload.bytes")
 	}
+	// the unprotected bucket may carry an algorithm as well (it must never be used)
+	if ndBool(pfx + ".unprotected.alg") {
+		a.Headers.Unprotected[cose.HeaderLabelAlgorithm] = cose.AlgorithmES256
+	}
+	// protected-header BYTES as received: the canonical serialisation of the decoded map, or
+	// some other byte string that decodes to the same map
+	pa, perr := a.Headers.Protected.Algorithm()
+	if ndBool(pfx + ".canonical.protected.bytes") {
+		a.Headers.RawProtected = verifCanonProt(perr == nil, int64(pa))
+	} else {
+		rp := ndBytes(pfx + ".rawprotected")
+		ndAssume(len(rp) > 0 && !verifSameBytes(rp, verifCanonProt(perr == nil, int64(pa))))
+		a.Headers.RawProtected = rp
+	}
 	if m != nil && ndBool(pfx+".samesig") {
 		a.Signature = m.Signature
 	} else {
@@ -216,6 +230,18 @@ func VerifC02bare() {
 	switch ndConcrete(verifChoice("strip", 3)) {
 	case 0:
 		delete(bare.message.Headers.Protected, cose.HeaderLabelAlgorithm)
+		if ndSymbolic() && ndBool("oracle.signature.over.empty.protected.header") {
+			// the signer's key has also signed (outside this library) a Sig_structure with an
+			// EMPTY protected header over this payload: that signature must still not make a
+			// message without a protected algorithm verify
+			bare.message.Headers.RawProtected = []byte{}
+			sig := ndBytes("oracle.sig")
+			ndAssume(len(sig) > 0)
+			idx := len(verifCose.tbs)
+			verifCose.tbs = append(verifCose.tbs, verifTBSRec{hasAlg: false, rawProt: []byte{}, ext: []byte(""), payload: bare.message.Payload})
+			verifCose.sigs = append(verifCose.sigs, verifSigRec{key: 0, alg: alg, tbs: idx, sig: sig})
+			bare.message.Signature = sig
+		}
 	case 1:
 		bare.message.Payload = nil
 	case 2:
@@ -231,11 +257,20 @@ func VerifC02bare() {
 // c02alg: the algorithm family under test (parameter "alg": index into verifAlgs)
 func c02alg() cose.Algorithm { return verifAlgs[ndParam("alg", 0)] }
 
+func c02prot(m *cose.Sign1Message) []byte {
+	if m.Headers.RawProtected != nil {
+		return m.Headers.RawProtected
+	}
+	a, err := m.Headers.Protected.Algorithm()
+	return verifCanonProt(err == nil, int64(a))
+}
+
+// same protected-header bytes, payload bytes and signature bytes
 func c02sameMessage(a, b *cose.Sign1Message) bool {
 	aa, e1 := a.Headers.Protected.Algorithm()
 	ba, e2 := b.Headers.Protected.Algorithm()
-	return (e1 == nil) == (e2 == nil) && (e1 != nil || aa == ba) && (a.Payload == nil) == (b.Payload == nil) &&
-		verifSameBytes(a.Payload, b.Payload) && verifSameBytes(a.Signature, b.Signature)
+	return (e1 == nil) == (e2 == nil) && (e1 != nil || aa == ba) && verifSameBytes(c02prot(a), c02prot(b)) &&
+		(a.Payload == nil) == (b.Payload == nil) && verifSameBytes(a.Payload, b.Payload) && verifSameBytes(a.Signature, b.Signature)
 }
 
 // ---------- C03 ----------
@@ -284,6 +319,14 @@ func VerifC03() {
 	ndAssert("c03-decoded-claims-equal-originals", obsSame(obsOf(ev.Claims), obsOf(g.c), -1))
 	ndAssert("c03-decoded-evidence-verifies", ev.Verify(w.pubAlg(0, alg)) == nil)
 	ndAssert("c03-decoded-payload-is-signed-payload", verifSameBytes(ev.message.Payload, e.message.Payload))
+	// decoding into an Evidence that already holds OTHER claims exposes exactly the decoded ones
+	other := c19valid("y.", ".Y")
+	e2 := &Evidence{Claims: other.c}
+	if e2.UnmarshalCOSE(tok) == nil {
+		ndAssert("c03-decode-replaces-attached-claims", obsSame(obsOf(e2.Claims), obsOf(g.c), -1))
+	} else {
+		ndAssert("c03-own-token-decodes-into-used-evidence", false)
+	}
 	ndCover("c03-roundtrip", true)
 	ndCover("c03-eddsa", alg == cose.AlgorithmEdDSA)
 }
